@@ -437,8 +437,18 @@ def run_members(ctx, members, name):
         # orientation / translation / permutation of a member are a pure function of its label (NOT of VERIF_SEED): members on
         # which the pinned tree fails are listed one by one in known_findings.json, which needs a fixed enumeration
         rng = _random.Random(int(hashlib.sha256(("c18:" + m["label"]).encode()).hexdigest()[:12], 16))
-        for variant in (0, 1, 2):
-            if variant == 2:
+        for variant in (0, 1, 2, 3):
+            if variant == 3:
+                # fourth presentation: the whole structure translated by half the cell height along the surface normal (and a little
+                # in plane), positions wrapped: the slab STRADDLES the periodic cell boundary (the random translation of variant 1
+                # stays below the vacuum thickness and never does that)
+                a0 = m["atoms"]
+                cell0 = np.array(a0.get_cell())
+                at = a0.copy()
+                at.translate(0.03 * cell0[0] + 0.02 * cell0[1] + (0.5 if mi % 2 == 0 else 7.0 / 12.0) * cell0[2])
+                at.wrap()
+                perm = list(range(len(a0)))
+            elif variant == 2:
                 # third presentation: the atoms listed by increasing distance from the centroid of the structure (so that the
                 # atom the classifier starts from -- the one closest to the centre of mass -- is very likely index 0)
                 a0 = m["atoms"]
@@ -448,7 +458,7 @@ def run_members(ctx, members, name):
             else:
                 at, perm = transform(rng, m["atoms"], variant == 1)
             inv = {old: new for new, old in enumerate(perm)}
-            case = c17.as_case(at, family="c18:" + m["label"], tags=([] if variant == 0 else (["rotated+translated+permuted"] if variant == 1 else ["sorted-by-distance-from-centroid"])), cfg={}, script=None,
+            case = c17.as_case(at, family="c18:" + m["label"], tags=([] if variant == 0 else (["rotated+translated+permuted"] if variant == 1 else (["sorted-by-distance-from-centroid"] if variant == 2 else ["straddling-the-cell-boundary"]))), cfg={}, script=None,
                                member=mi, variant=variant, slab=sorted(inv[i] for i in m["slab"]), ads=sorted(inv[i] for i in m["ads"]),
                                time_limit=300, single_call=True)
             case["id"] = len(cases)
